@@ -8,7 +8,7 @@ def variants(tier, seed):
         Variant("gccO2", "gcc", ["-O2"], seed_off=0),
         Variant("clangO2", "clang", ["-O2"], seed_off=1),
         Variant("gccO0", "gcc", ["-O0"], seed_off=2),
-        Variant("clangO1_asan", "clang", ["-O1"], san=True, seed_off=3),
+        Variant("clangO1_asan", "clang", ["-O1"], san=True, seed_off=3, scale=(1.0 if tier == "quick" else 0.25)),  # the sanitised build with an OpenSSL reference is ~6x slower: a quarter of the thorough budget
     ]
 
 
